@@ -12,7 +12,7 @@ INF = None          # "max not given"
 START = 3           # offset of the write position along the split axis
 CROSS0, CROSS = 2, 7  # offset/extent across the split axis
 SPLIT_OPS = (0,)   # op 4 of run_C12 is the pinned (pre-8a80803) division; no registered path uses it
-OPNAME = {0: "split", 1: "sum", 2: "max", 3: "take", 4: "split", 5: "multi-render", 6: "split-report", 7: "merge-dimensions"}
+OPNAME = {0: "split", 1: "sum", 2: "max", 3: "take", 4: "split", 5: "multi-render", 6: "split-report", 7: "merge-dimensions", 9: "window-preferred"}
 ALIGN_NAMES = {0: "start(TOP/LEFT)", 1: "CENTER", 2: "end(BOTTOM/RIGHT)", 3: "JUSTIFY"}
 
 
@@ -34,10 +34,11 @@ def unraw(r):
 
 def fuel_bound(ndims, weights, avail):
     """coq/Proofs/C12_Termination.v divide_fuel: iterations of one grow loop
-    that always suffice (theorem C12_terminates)."""
+    that always suffice (theorem C12_terminates): (max(0, avail) + 1) * sum(weights) + n + 1.
+    `weights` may list fewer entries than there are dimensions (padding windows share one weight):
+    each is counted ndims times, which only makes the fuel larger."""
     D = max(0, avail)
-    W = max([1] + list(weights))
-    return ndims * ((D + ((D + 1) * W + 3)) * W + 1) + 1
+    return (D + 1) * ndims * sum(max(0, w) for w in weights) + ndims + 1
 
 
 def split_case(orient, done, align, pad, children, avail):
@@ -78,6 +79,7 @@ def _install_hooks():
 
     class _App:
         is_done = False
+        render_counter = 0        # as DummyApplication: outside a running application the counter never moves
     _patched["real_tuw"] = real
     _patched["real_get_app"] = C.get_app
     _patched["app"] = _App()
@@ -312,9 +314,14 @@ def impl_split_real(case):
 
 
 def multi_case(orient, done, align, pad, pool, avail, steps):
-    n_all = 2 * max(len(st) for st in steps) + 2
+    """steps: [[ids, [[id, raw requirement], ...]], ...]: before each render the children list becomes `ids`
+    and the children named in the changes report a new requirement from now on"""
+    pool0 = pool
+    n_all = 2 * max(len(st[0]) for st in steps) + 2
+    for st in steps:
+        pool = pool + [ch[1] for ch in st[1]]          # weights of later requirements count for the fuel too
     ws = [c[2][0] if c[2] else 1 for c in pool] + [pad[2][0] if pad[2] else 1, 1]
-    return [5, orient, done, align, pad, pool, avail, START, fuel_bound(n_all, ws, avail), steps]
+    return [5, orient, done, align, pad, pool0, avail, START, fuel_bound(n_all, ws, avail), steps]
 
 
 def impl_multi(case):
@@ -325,14 +332,17 @@ def impl_multi(case):
     try:
         padd = _mkdim(pad)
         dims = [_mkdim(c) for c in pool]
+        newdims = [[(ch[0], _mkdim(ch[1])) for ch in st[1]] for st in steps]
     except ValueError:
         return [4], []
     except AssertionError:
         return [5], []
     boxes = [Box(d, orient, log, pid=k) for k, d in enumerate(dims)]
-    b = make_split(orient, align, padd, [boxes[i] for i in steps[0]], log)
+    b = make_split(orient, align, padd, [boxes[i] for i in steps[0][0]], log)
     out, infos = [], []
-    for k, ids in enumerate(steps):
+    for k, (ids, _chg) in enumerate(steps):
+        for pid, nd in newdims[k]:
+            boxes[pid].dim = nd                              # the same child object reports something else from now on
         if k > 0:
             cur = b.split.children
             new = [boxes[i] for i in ids]
@@ -363,7 +373,7 @@ def impl_multi(case):
 
 def impl_report(case):
     """The Dimension a split reports to its parent: preferred_width / preferred_height."""
-    _, orient, axis, align, pad, ws, hs, width, fuel = case
+    _, orient, axis, align, pad, ws, hs, width, fuel, ov = case
     Box = _box_class()
     try:
         padd = _mkdim(pad)
@@ -378,9 +388,25 @@ def impl_report(case):
         return [4]
     except AssertionError:
         return [5]
+    ovd = None
+    if ov:
+        try:
+            ovd = _mkdim(ov[0])
+        except ValueError:
+            return [4]
+        except AssertionError:
+            return [5]
+        mn_, mx_, w_, p_ = unraw(ov[0])
+        if mn_ is not None and mn_ == mx_ == p_ and w_ is None and fuel % 2 == 0:
+            ovd = mn_                                        # an int means Dimension.exact(int)
     log = []
     kids = [Box(dh[k] if orient == 0 else dw[k], orient, log, other=(dw[k] if orient == 0 else dh[k])) for k in range(len(dw))]
     b = make_split(orient, align, padd, kids, log)
+    if ov:
+        if axis == 0:
+            b.split.width = ovd
+        else:
+            b.split.height = ovd
     _patched["app"].is_done = False
     _Budget.n, _Budget.limit = 0, 2 * fuel + 1
     try:
@@ -435,6 +461,55 @@ def impl_merge(case):
     h = run(lambda: Window(content=Ctl(), height=d, dont_extend_height=bool(de)).preferred_height(10, 10))
     w = run(lambda: Window(content=Ctl(), width=d, dont_extend_width=bool(de)).preferred_width(10))
     return a, (h, w)
+
+
+def impl_window(case):
+    """Window.preferred_width/height with margins and ignore_content_*."""
+    from prompt_toolkit.layout.containers import Window
+    from prompt_toolkit.layout.controls import UIControl, UIContent
+    from prompt_toolkit.layout.margins import Margin
+    _, axis, r, cp, de, margin, ignore = case
+    cpv = cp[0] if cp else None
+    try:
+        d = _mkdim(r)
+    except ValueError:
+        return [4]
+    except AssertionError:
+        return [5]
+
+    class Ctl(UIControl):
+        def create_content(self, width, height):
+            return UIContent(get_line=lambda i: [], line_count=1)
+
+        def preferred_width(self, max_available_width):
+            return cpv
+
+        def preferred_height(self, width, max_available_height, wrap_lines, get_line_prefix):
+            return cpv
+
+    class M(Margin):
+        def __init__(self, w):
+            self.w = w
+
+        def get_width(self, get_ui_content):
+            return self.w
+
+        def create_margin(self, window_render_info, width, height):
+            return []
+    left = [M(margin // 2)] if margin else []
+    right = [M(margin - margin // 2)] if margin else []
+    try:
+        if axis == 0:
+            w = Window(content=Ctl(), width=d, dont_extend_width=bool(de), ignore_content_width=bool(ignore),
+                       left_margins=left, right_margins=right)
+            return canon_dim(with_watchdog(lambda: w.preferred_width(50), 2))
+        w = Window(content=Ctl(), height=d, dont_extend_height=bool(de), ignore_content_height=bool(ignore),
+                   left_margins=left, right_margins=right)
+        return canon_dim(with_watchdog(lambda: w.preferred_height(50, 50), 2))
+    except ValueError:
+        return [4]
+    except AssertionError:
+        return [5]
 
 
 def project_nonempty(m):
@@ -755,10 +830,11 @@ def gen_cases(chk):
         npool = rng.randint(2, 5)
         pool = [rng.choice(small) for _ in range(npool)]
         cur = rng.sample(range(npool), rng.randint(1, npool))
-        steps = [list(cur)]
+        steps = [[list(cur), []]]
         for _ in range(rng.randint(1, 3)):
             cur = list(cur)
-            e = rng.choice(["swap", "swap", "replace", "replace", "rotate", "rotate", "append", "delete", "same", "shuffle", "reverse"])
+            e = rng.choice(["swap", "swap", "replace", "replace", "rotate", "rotate", "append", "delete", "same", "same", "same",
+                            "same", "shuffle", "reverse"])
             rest = [i for i in range(npool) if i not in cur]
             if e == "swap" and len(cur) >= 2:
                 a, b2 = rng.sample(range(len(cur)), 2)
@@ -775,7 +851,12 @@ def gen_cases(chk):
                 rng.shuffle(cur)
             elif e == "reverse":
                 cur.reverse()
-            steps.append(list(cur))
+            # what a child reports may change between two renders (same object, same list)
+            chg = []
+            if cur and (e == "same" or rng.random() < 0.3):
+                for pid in rng.sample(cur, rng.randint(1, min(2, len(cur)))):
+                    chg.append([pid, rng.choice(small)])
+            steps.append([list(cur), chg])
         add("multi_render_edited_children", multi_case(rng.randint(0, 1), rng.choice([0, 0, 0, 1]), rng.randint(0, 3),
                                                        rng.choice(PADS), pool, rng.randint(0, 14), steps))
     # the dimension a split reports to its parent
@@ -786,8 +867,9 @@ def gen_cases(chk):
         pad = rng.choice(PADS)
         width = rng.randint(0, 14)
         wts = [c[2][0] if c[2] else 1 for c in ws_] + [pad[2][0] if pad[2] else 1, 1]
+        ov = [] if rng.random() < 0.75 else [rng.choice(specs + [raw(3, 3, None, 3), raw(0, 0, None, 0), raw(7, 7, None, 7)])]
         add("split_reported_dimension", [6, rng.randint(0, 1), rng.randint(0, 1), rng.randint(0, 3), pad, ws_, hs_, width,
-                                         fuel_bound(2 * n + 2, wts, width)])
+                                         fuel_bound(2 * n + 2, wts, width), ov])
     # Window._merge_dimensions
     mvals = [None, 0, 1, 2, 5]
     for mn in mvals:
@@ -797,6 +879,9 @@ def gen_cases(chk):
                     for de in (0, 1):
                         if thorough or rng.random() < 0.5:
                             add("merge_dimensions", [7, raw(mn, mx, rng.choice([None, 0, 1, 3]), p_), cp, de])
+    for _ in range(6000 if thorough else 900):
+        add("window_preferred_with_margins", [9, rng.randint(0, 1), raw(rng.choice(mvals), rng.choice(mvals), rng.choice([None, 0, 1, 3]), rng.choice(mvals)),
+                                              rng.choice([[], [0], [1], [3], [9]]), rng.randint(0, 1), rng.choice([0, 0, 1, 2, 5]), rng.choice([0, 0, 0, 1])])
     # dimension algebra and the generator on their own
     for _ in range(4000 if thorough else 600):
         kids = [rng.choice(specs) for _ in range(rng.randint(0, 4))]
@@ -820,16 +905,21 @@ def describe_case(c):
             "_divide_heights" if c[1] == 0 else "_divide_widths", c[6], " [app.is_done]" if c[2] else "")
     if c[0] == 5:
         return "%s(children=pool[%r], align=%s, padding=D%r) with pool=%s, available %d%s; then split.children edited to %s, rendered after each edit" % (
-            "HSplit" if c[1] == 0 else "VSplit", c[9][0], ALIGN_NAMES.get(c[3]), unraw(c[4]),
+            "HSplit" if c[1] == 0 else "VSplit", c[9][0][0], ALIGN_NAMES.get(c[3]), unraw(c[4]),
             ["D(min=%r,max=%r,weight=%r,preferred=%r)" % unraw(k) for k in c[5]], c[6], " [app.is_done]" if c[2] else "",
-            " -> ".join("pool[%r]" % (st,) for st in c[9][1:]))
+            " -> ".join("children=pool[%r]%s" % (st[0], "".join(", child %d now reports D(min=%r,max=%r,weight=%r,preferred=%r)" % ((ch[0],) + unraw(ch[1])) for ch in st[1]))
+                        for st in c[9][1:]))
     if c[0] == 6:
-        return "%s(children with widths %s heights %s, align=%s, padding=D%r).%s" % (
+        return "%s(children with widths %s heights %s, align=%s, padding=D%r%s).%s" % (
             "HSplit" if c[1] == 0 else "VSplit", [unraw(k) for k in c[5]], [unraw(k) for k in c[6]], ALIGN_NAMES.get(c[3]), unraw(c[4]),
+            (", %s=D%r" % ("width" if c[2] == 0 else "height", unraw(c[9][0]))) if c[9] else "",
             "preferred_width(%d)" % c[7] if c[2] == 0 else "preferred_height(%d, ..)" % c[7])
     if c[0] == 7:
         return "Window._merge_dimensions(D(min=%r,max=%r,weight=%r,preferred=%r), get_preferred -> %r, dont_extend=%r)" % (
             unraw(c[1]) + (c[2][0] if c[2] else None, bool(c[3])))
+    if c[0] == 9:
+        return "Window(%s=D(min=%r,max=%r,weight=%r,preferred=%r), content preferring %r, dont_extend=%r, margins of total width %d, ignore_content=%r).preferred_%s" % (
+            ("width" if c[1] == 0 else "height",) + unraw(c[2]) + (c[3][0] if c[3] else None, bool(c[4]), c[5], bool(c[6]), "width" if c[1] == 0 else "height"))
     if c[0] in (1, 2):
         return "%s(%s)" % ("sum_layout_dimensions" if c[0] == 1 else "max_layout_dimensions", [unraw(k) for k in c[1]])
     return "take_using_weights(range(%d), %r) first %d" % (len(c[1]), c[1], c[2])
@@ -864,6 +954,8 @@ def run_impl(c):
         if h is not None and (h != res or w != res):
             bad = ("Window.preferred_height/width differ from Window._merge_dimensions: %r %r %r" % (res, h, w), "merge-path")
         return res, None, bad
+    if c[0] == 9:
+        return impl_window(c), None, None
     res = impl_take(c)
     return res, None, oracle_take(c, res)
 
